@@ -447,7 +447,7 @@ def main(out_path):
     gen_vars(cp.strip_comments(open(INC + VARS, encoding='utf8').read()), regions, defs)
     gen_indexset(cp.strip_comments(open(INC + ISET, encoding='utf8').read()), regions, defs)
     text = ('/- GENERATED by /verif/gen/gen_c12.py — do not edit. C12: OCPVariables storage layout and '
-            'IndexSet index loops. -/\n\nnamespace Alpaqa.Gen.C12\n\n' + '\n'.join(defs) +
+            'IndexSet index loops. -/\n\nset_option linter.unusedVariables false\n\nnamespace Alpaqa.Gen.C12\n\n' + '\n'.join(defs) +
             '\nend Alpaqa.Gen.C12\n')
     old = open(out_path).read() if os.path.exists(out_path) else None
     if old != text:
